@@ -43,19 +43,32 @@ PointClause(e, q, nv) ==
     ELSE IF \E ee \in {8, 4, 2} : OutwardAt(e, q, nv, ee) THEN "ok"
     ELSE IF In(e, Stepped(e, q, nv, 1, 4)) THEN "normal-step-stays-inside"
     ELSE "step-against-normal-is-outside"
+\* a ball whose radius function is not positive at the parameter row of a sample set has no boundary to speak of (radius 0:
+\* one point, no normal direction; negative radius: not a domain): such sets are outside the input universe and not judged
+RECURSIVE DegBall(_, _)
+DegBall(e, q) ==
+    CASE e.k \in {"circle", "sphere"} -> Aff(e.r, q) <= 0
+      [] e.k \in {"union", "cut", "and"} -> DegBall(e.l, q) \/ DegBall(e.r, q)
+      [] OTHER -> FALSE
+QofRow(e, row) == [val |-> [n \in FreeVars(e) |-> <<row[n]>>], w |-> 1]
+\* (a set without points -- the call failed -- is located by its logged parameter row; a set over several rows by any of the rows)
+SetDeg(e, st) == IF st.pts # <<>> THEN \E i \in DOMAIN st.pts : DegBall(e, Q(st.pts[i]))
+                 ELSE IF FreeVars(e) \subseteq DOMAIN st.prm THEN DegBall(e, QofRow(e, st.prm))
+                 ELSE \E row \in [FreeVars(e) -> {0, 256, 512}] : DegBall(e, QofRow(e, row))
 SetClauses(e, st) == {PointClause(e, Q(st.pts[i]), st.normals[i]) : i \in DOMAIN st.pts}
 Check(t) ==
     IF "driver_error" \in DOMAIN t THEN <<"driver-error", "", 0>>
     ELSE IF t.bd_exc # "" THEN <<"ok", "", 0>>
     ELSE LET e == E(t)
-             bad == {<<j, i>> \in (DOMAIN t.sets) \X (1..40) : t.sets[j].exc = "" /\ t.sets[j].nexc = "" /\ i \in DOMAIN t.sets[j].pts
+             J == {j \in DOMAIN t.sets : ~SetDeg(e, t.sets[j])}
+             bad == {<<j, i>> \in J \X (1..40) : t.sets[j].exc = "" /\ t.sets[j].nexc = "" /\ i \in DOMAIN t.sets[j].pts
                         /\ PointClause(e, Q(t.sets[j].pts[i]), t.sets[j].normals[i]) \notin {"ok", "skip"}}
-             nj == Cardinality({<<j, i>> \in (DOMAIN t.sets) \X (1..40) : t.sets[j].exc = "" /\ t.sets[j].nexc = "" /\ i \in DOMAIN t.sets[j].pts
+             nj == Cardinality({<<j, i>> \in J \X (1..40) : t.sets[j].exc = "" /\ t.sets[j].nexc = "" /\ i \in DOMAIN t.sets[j].pts
                                     /\ PointClause(e, Q(t.sets[j].pts[i]), t.sets[j].normals[i]) # "skip"})
-         IN IF \E j \in DOMAIN t.sets : t.sets[j].exc = "" /\ t.sets[j].nexc # "" THEN <<"normal-failed:" \o t.sets[CHOOSE j \in DOMAIN t.sets : t.sets[j].exc = "" /\ t.sets[j].nexc # ""].nexc, "", nj>>
-            ELSE IF \E j \in DOMAIN t.sets : t.sets[j].exc = "" /\ ~t.sets[j].shape_ok THEN <<"one-normal-per-point", "", nj>>
+         IN IF \E j \in J : t.sets[j].exc = "" /\ t.sets[j].nexc # "" THEN <<"normal-failed:" \o t.sets[CHOOSE j \in J : t.sets[j].exc = "" /\ t.sets[j].nexc # ""].nexc, "", nj>>
+            ELSE IF \E j \in J : t.sets[j].exc = "" /\ ~t.sets[j].shape_ok THEN <<"one-normal-per-point", "", nj>>
             \* the 4096 times smaller copy: the squared length at 1/4096 is within 0.4 % of 1 (the coarser test above allows 2.3 %)
-            ELSE IF \E j \in DOMAIN t.sets : "len2_4096" \in DOMAIN t.sets[j] /\ t.sets[j].exc = "" /\ t.sets[j].nexc = ""
+            ELSE IF \E j \in J : "len2_4096" \in DOMAIN t.sets[j] /\ t.sets[j].exc = "" /\ t.sets[j].nexc = ""
                        /\ \E i \in DOMAIN t.sets[j].len2_4096 : LET d == t.sets[j].len2_4096[i] - 16777216 IN d > 67108 \/ d < -67108
                  THEN <<"normal-not-unit(tiny shape)", "", nj>>
             ELSE IF bad # {} THEN LET b == CHOOSE b \in bad : TRUE IN
